@@ -2195,3 +2195,55 @@ SUBCHECKS = [_pred_sub(n) for n in PREDS] + [
     SubCheck("kp_trace_norm", check_norms, _norm_case, _nt_norm, quick=1200, thorough=24000, shards=4),
     SubCheck("psd_rank_smoke", check_psd_rank_smoke, None, lambda c: None, cases=_psd_rank_cases, shards=1, case_timeout=60),
 ]
+
+
+# ------------------------------------------------------------------------------------------
+# tolerance semantics of the eigenvalue-threshold predicates (the margin logic above never places an eigenvalue between
+# the function's rtol and atol arguments; a seeded change of that kind was missed in C06 and the same gap existed here)
+# ------------------------------------------------------------------------------------------
+@st.composite
+def _psdtol_case(draw):
+    return {
+        "n": draw(st.integers(2, 6)),
+        "seed": draw(gen.SEED),
+        "cplx": draw(st.booleans()),
+        "fn": draw(st.sampled_from(["is_positive_semidefinite", "is_positive_semidefinite", "is_density"])),
+        "atol": draw(st.sampled_from([None, 1e-8, 1e-7, 1e-6, 1e-4])),
+        "rtol": draw(st.sampled_from([None, 1e-5, 1e-3, 1e-9])),
+        "side": draw(st.sampled_from(["violates", "within"])),
+        "factor": draw(st.sampled_from([10.0, 30.0, 100.0])),
+    }
+
+
+def check_psd_tolerance(case):
+    from toqito.matrix_props import is_density, is_positive_semidefinite
+
+    n = case["n"]
+    is_dens = case["fn"] == "is_density"
+    atol = 1e-8 if (case["atol"] is None or is_dens) else case["atol"]
+    u = gen.rand_unitary(case["seed"], n, real=not case["cplx"])
+    g = gen.rng(case["seed"] // 5 + 3)
+    lam = np.sort(g.uniform(0.2, 1.0, size=n))
+    lam[0] = -atol * case["factor"] if case["side"] == "violates" else -atol / case["factor"]
+    if is_dens:
+        lam[1:] *= (1.0 - lam[0]) / lam[1:].sum()
+    m = (u * lam) @ u.conj().T
+    m = (m + m.conj().T) / 2
+    if abs(float(np.linalg.eigvalsh(m)[0]) - lam[0]) > atol / 1000:
+        raise Inconclusive("construction-inexact")
+    want = case["side"] == "within"
+    if is_dens:
+        got = bool(is_density(m))
+        what = "is_density(M)"
+    else:
+        kw = {}
+        if case["atol"] is not None:
+            kw["atol"] = case["atol"]
+        if case["rtol"] is not None:
+            kw["rtol"] = case["rtol"]
+        got = bool(is_positive_semidefinite(m, **kw))
+        what = f"is_positive_semidefinite(M, {kw or 'default tolerances'})"
+    req(got == want, f"{what} with smallest eigenvalue {lam[0]:.1e} returned {got}; the eigenvalue tolerance is atol = {atol:.0e}, so the definition gives {want}", "psd:tolerance-semantics")
+
+
+SUBCHECKS.append(SubCheck("psd_tolerance", check_psd_tolerance, _psdtol_case, lambda c: f"{c['fn']},{c['side']},atol={c['atol']}", quick=1500, thorough=30000, shards=4))
